@@ -40,7 +40,7 @@ L1_RULES = [
 def _style(rnd, F):
     return {
         "shuffle": rnd.random() < 0.5,
-        "collect": "tight" if F["tight"] else "spaced",
+        "collect": "tight" if F["tight"] else "single" if F["squote"] else "spaced",
         "version": rnd.random() < 0.8,
         "tag_string": rnd.random() < 0.5,
         "descriptions": rnd.random() < 0.3,
@@ -155,7 +155,7 @@ def _minimal(**task_fields):
     el = {"par": False, "cb": "", "tasks": [t]}
     for k in tg.EL_NUM:
         el[k] = dict(tg.NOVAL)
-    return {"form": "schedule", "chals": [{"name": "", "dflt": "abs", "sched": [el]}], "ops": [], "corpora": [], "indices": [], "streams": [], "supN": [], "supS": [], "parts": [], "refs": [], "tight": False, "defect": dict(tg.NODEFECT), "ibody": dict(tg.NOVAL), "tkind": "", "tbody": dict(tg.NOVAL)}
+    return {"form": "schedule", "chals": [{"name": "", "dflt": "abs", "sched": [el]}], "ops": [], "corpora": [], "indices": [], "streams": [], "supN": [], "supS": [], "parts": [], "refs": [], "tight": False, "squote": False, "mac": dict(tg.NOVAL), "defect": dict(tg.NODEFECT), "ibody": dict(tg.NOVAL), "tkind": "", "tbody": dict(tg.NOVAL)}
 
 
 def probe_loader(root):
@@ -205,7 +205,7 @@ def run(ctx, out):
     out.assumptions = [
         "Jinja2, the json module and the jsonschema library are trusted (jsonschema's self-check of the constant track schema is run once per distinct schema, not per load)",
         "the track format is exercised through the constructs the harness renders: literal values, {{ p | default(v) }} parameters (numbers, task names, inside strings), "
-        "an index body file and a composable / component / legacy template file with parameters of their own, strings with & < > ' (names, tags, supplied string parameters), "
+        "includes written with single quotes (handled by the Jinja macro), a macro file pulled in with {% import %}, base-url on corpora / document sets, an index body file and a composable / component / legacy template file with parameters of their own, strings with & < > ' (names, tags, supplied string parameters), "
         "the helper macro rally.exists_set_param (with / without default_value, comma=True / False; user values absent, 0, false, '', truthy), "
         "rally.collect(parts=...) includes with and without blanks inside the braces, one and two levels deep (second-level pattern relative to the including part's directory), operations by name / by type / inline, single-string or list tags, shuffled keys, "
         "optional version / description; index / template bodies, custom parameter sources and track plugins are not exercised",
